@@ -18,15 +18,24 @@ pub fn show(o: &FindOut) -> String {
 /// expression in wire tokens. Returns (request, implementation answer).
 pub fn run_case(ctx: &Ctx, cwd: &Path, flag: &str, roots: &[(Vec<u8>, String)], toks: &[String], rng: &mut Rng, binary: bool) -> (String, String) {
     let mut args: Vec<String> = vec![];
-    match flag {
-        "H" => args.push("-H".into()),
-        "L" => args.push("-L".into()),
-        "P" => {
-            if rng.chance(1, 3) {
-                args.push("-P".into())
+    // among several of -H, -L, -P the last one decides; -O<n> is ignored: a quarter of the runs put an
+    // overridden flag (and sometimes an optimisation level) before the effective one
+    if rng.chance(1, 4) {
+        let other: Vec<&str> = ["-H", "-L", "-P"].into_iter().filter(|f| f[1..] != *flag).collect();
+        args.push((*rng.pick(&other)).to_string());
+        if rng.chance(1, 3) { args.push((*rng.pick(&["-O0", "-O1", "-O2", "-O3"])).to_string()); }
+        args.push(format!("-{flag}"));
+    } else {
+        match flag {
+            "H" => args.push("-H".into()),
+            "L" => args.push("-L".into()),
+            "P" => {
+                if rng.chance(1, 3) {
+                    args.push("-P".into())
+                }
             }
+            _ => panic!("flag"),
         }
-        _ => panic!("flag"),
     }
     for (sp, _) in roots {
         args.push(String::from_utf8(sp.clone()).expect("utf8 start"));
